@@ -401,9 +401,9 @@ class Program:
         return self._callers
 
 
-def load_program(repo=None, extra_args=(), tag='base'):
+def load_program(repo=None, extra_args=(), tag='base', overlay=None):
     from .facts import extract
-    fdir, info = extract(repo, extra_args, tag)
+    fdir, info = extract(repo, extra_args, tag, overlay=overlay)
     p = Program(fdir)
     p.info = info
     return p
